@@ -2,9 +2,9 @@
 (***************************************************************************)
 (* C27.  09-localhost: membership verification succeeds exactly when the   *)
 (* chain's own IBC store holds the value at the key, non-membership        *)
-(* exactly when the key is absent; both need the sentinel proof and a      *)
-(* two-element path; the localhost client cannot be created, updated,      *)
-(* upgraded or recovered.                                                  *)
+(* exactly when the key is absent; both need the sentinel proof, a         *)
+(* two-element path and a proof height the chain itself has reached; the   *)
+(* localhost client cannot be created, updated, upgraded or recovered.     *)
 (*                                                                         *)
 (* C04 (localhost part).  A loopback channel (both ends on one chain over  *)
 (* connection-localhost): a timeout may be accepted only when the chain    *)
@@ -21,25 +21,25 @@ Put(m, k, v) == [x \in (DOMAIN m) \cup {k} |-> IF x = k THEN v ELSE m[x]]
 \*         [a |-> "ClientOp", op, shape, via]
 \* proof : "sentinel" | "empty" | "nil" | "other" | "sentinelx" (sentinel plus one byte) | "real" (an ICS-23 proof)
 \* plen  : number of path elements (the key is the last element for plen = 1, the second otherwise)
-\* hc    : class of the height argument ("zero", "cur", "past", "future")
+\* hc    : class of the proof height argument: "zero", "past", "cur" (the chain's own height, i.e. the height of the
+\*         executing block), "next" (own height + 1), "future" (far above)
+G_HeightNotAboveSelf(a) == a.hc \notin {"next", "future"}      \* a height beyond the chain's own height proves nothing
 G_Sentinel(a) == a.proof = "sentinel"
 G_TwoElements(a) == a.plen = 2
 G_Holds(S, a)  == a.key \in DOMAIN S.store /\ S.store[a.key] = a.val
 G_Absent(S, a) == a.key \notin DOMAIN S.store
 
-Member(S, a)    == G_Sentinel(a) /\ G_TwoElements(a) /\ G_Holds(S, a)
-NonMember(S, a) == G_Sentinel(a) /\ G_TwoElements(a) /\ G_Absent(S, a)
+Member(S, a)    == G_HeightNotAboveSelf(a) /\ G_Sentinel(a) /\ G_TwoElements(a) /\ G_Holds(S, a)
+NonMember(S, a) == G_HeightNotAboveSelf(a) /\ G_Sentinel(a) /\ G_TwoElements(a) /\ G_Absent(S, a)
 
 Step(S, a) ==
     CASE a.a = "VM"       -> [res |-> IF Member(S, a) THEN "ok" ELSE "err", S |-> S]
       [] a.a = "VNM"      -> [res |-> IF NonMember(S, a) THEN "ok" ELSE "err", S |-> S]
       [] a.a = "ClientOp" -> [res |-> "err", S |-> S]
 
-\* C27 over one step; heights above the chain's own height are only held to the "only if" direction
-P_MembershipIffStore(pre, a, r) ==
-    a.a = "VM" => (r = "ok" => Member(pre, a)) /\ (a.hc # "future" /\ Member(pre, a) => r = "ok")
-P_NonMembershipIffAbsent(pre, a, r) ==
-    a.a = "VNM" => (r = "ok" => NonMember(pre, a)) /\ (a.hc # "future" /\ NonMember(pre, a) => r = "ok")
+\* C27 over one step: verification succeeds exactly when the store says so (for a height the chain has reached)
+P_MembershipIffStore(pre, a, r)     == a.a = "VM" => (r = "ok" <=> Member(pre, a))
+P_NonMembershipIffAbsent(pre, a, r) == a.a = "VNM" => (r = "ok" <=> NonMember(pre, a))
 P_ClientOpsRefused(a, r) == a.a = "ClientOp" => r # "ok"
 
 \* =========================== loopback channel (C04) =============================
@@ -51,7 +51,8 @@ ElapsedAt(p, h, t) == (p.toH # 0 /\ h >= p.toH) \/ (p.toT # 0 /\ t >= p.toT)
 LG_SelfReachedTimeout(L, a) == ElapsedAt(L.sent[a.seq], L.h + 1, L.now + a.dt)
 LG_Committed(L, a)  == a.seq \in L.commit
 LG_Unreceived(L, a) == a.seq \notin L.rcpt
-\* what the code checks instead of LG_SelfReachedTimeout: the CLAIMED proof height, and the chain's real time
+\* what the code checks: the CLAIMED proof height (which 09-localhost bounds by the chain's own height) and the real time
+LG_ProofHeightNotAboveSelf(L, a) == a.ph <= L.h + 1
 LG_ClaimElapsed(L, a) == LET p == L.sent[a.seq] IN (p.toH # 0 /\ a.ph >= p.toH) \/ (p.toT # 0 /\ L.now + a.dt >= p.toT)
 
 Tick(L, a) == [L EXCEPT !.h = @ + 1, !.now = @ + a.dt]
@@ -67,7 +68,8 @@ LStep(L, a) ==
            THEN [res |-> "ok", L |-> [Tick(L, a) EXCEPT !.rcpt = @ \cup {a.seq}, !.log = Append(@, [ev |-> "recv", seq |-> a.seq])]]
            ELSE [res |-> IF a.seq \in L.rcpt THEN "noop" ELSE "err", L |-> Tick(L, a)]
       [] a.a = "LTimeout" ->
-           IF a.seq \in DOMAIN L.sent /\ LG_Committed(L, a) /\ LG_Unreceived(L, a) /\ LG_SelfReachedTimeout(L, a)
+           IF a.seq \in DOMAIN L.sent /\ LG_Committed(L, a) /\ LG_Unreceived(L, a)
+              /\ LG_ProofHeightNotAboveSelf(L, a) /\ LG_ClaimElapsed(L, a)
            THEN [res |-> "ok", L |-> [Tick(L, a) EXCEPT !.commit = @ \ {a.seq}, !.log = Append(@, [ev |-> "timeout", seq |-> a.seq])]]
            ELSE [res |-> IF a.seq \in DOMAIN L.sent /\ ~LG_Committed(L, a) THEN "noop" ELSE "err", L |-> Tick(L, a)]
 
